@@ -84,8 +84,52 @@ func (img *dirImage) writeTo(root string, override map[string][]byte, deleted ma
 
 type diskFixture struct {
 	comp     map[string]*dirImage
-	keys     [][]byte // keys written to the store / tbtree fixtures
-	zOffsets []int64  // chunk offsets of the compressed singleapp fixture
+	keys     [][]byte           // keys written to the store / tbtree fixtures
+	zOffsets []int64            // chunk offsets of the compressed singleapp fixture
+	txFields map[string][]field // fields of the store's tx-log records, by chunk file (base name)
+}
+
+func payloadOf(b []byte) (int, []byte) {
+	if len(b) < 4 {
+		return 0, nil
+	}
+	h := 4 + int(binary.BigEndian.Uint32(b))
+	if h < 4 || h > len(b) {
+		return 0, nil
+	}
+	return h, b[h:]
+}
+
+// mapTxLogFields parses the records of the pristine store's tx log (the
+// concatenation of the chunk payloads) and maps every field back to its file.
+func mapTxLogFields(img *dirImage) map[string][]field {
+	type chunk struct {
+		name       string
+		hdr, start int // header length in the file, offset of its payload in the concatenation
+		n          int
+	}
+	var chunks []chunk
+	var cat []byte
+	for _, n := range img.names {
+		if strings.HasPrefix(n, "tx/") {
+			h, pl := payloadOf(img.files[n])
+			chunks = append(chunks, chunk{filepath.Base(n), h, len(cat), len(pl)})
+			cat = append(cat, pl...)
+		}
+	}
+	l := &layout{b: cat}
+	layoutTxLog(l, 0)
+	out := map[string][]field{}
+	for _, f := range l.f {
+		for _, c := range chunks {
+			if f.off >= c.start && f.off+f.n <= c.start+c.n {
+				g := f
+				g.off = f.off - c.start + c.hdr
+				out[c.name] = append(out[c.name], g)
+			}
+		}
+	}
+	return out
 }
 
 var (
@@ -288,6 +332,7 @@ func buildDiskFixture() (*diskFixture, error) {
 			return nil, err
 		}
 		f.comp["store"] = img
+		f.txFields = mapTxLogFields(img)
 	}
 	return f, nil
 }
@@ -375,8 +420,10 @@ func layoutFile(name string, data []byte) *layout {
 			l.add(fmt.Sprintf("clog[%s].alh", idxName(e, n)), o+12, 32, kHash)
 			l.recs = append(l.recs, record{fmt.Sprintf("clog[%s]", idxName(e, n)), o, o + 44})
 		}
-	case strings.HasSuffix(name, ".tx"):
-		layoutTxLog(l, p0)
+	case strings.HasSuffix(name, ".tx") && df != nil && df.txFields != nil:
+		for _, f := range df.txFields[filepath.Base(name)] {
+			l.f = append(l.f, f)
+		}
 	default:
 		for w := 0; w < 4 && (w+1)*8 <= pl; w++ {
 			l.add(fmt.Sprintf("pl.w8[%d]", w), p0+w*8, 8, kNum)
@@ -423,7 +470,7 @@ func layoutTxLog(l *layout, p0 int) {
 		}
 		start := i
 		p := fmt.Sprintf("tx%d.", r+1)
-		detailed := r < 2 || r == 3 || r == 7 || r >= 10 // keep the field list manageable
+		detailed := true
 		add := func(name string, n, kind int) {
 			if detailed {
 				l.add(p+name, i, n, kind)
@@ -543,6 +590,24 @@ func metadataKnown(b []byte, depth int) string {
 	return ""
 }
 
+func zOffsetsOf() []int64 {
+	if df != nil {
+		return df.zOffsets
+	}
+	return nil
+}
+
+// storeKeys: the keys written to the store fixture (deterministic, also known to the child process).
+func storeKeys() [][]byte {
+	var ks [][]byte
+	for i := 0; i < 12; i++ {
+		for e := 0; e < 1+i%3; e++ {
+			ks = append(ks, []byte(fmt.Sprintf("k-%d-%d", i%5, e)))
+		}
+	}
+	return ks
+}
+
 // ---------------------------------------------------------------------------
 // open + full read of every component
 
@@ -600,7 +665,7 @@ func openAndRead(comp, dir string, keys [][]byte) (opened bool, err error) {
 		a.Size()
 		var firstErr error
 		buf := make([]byte, 40)
-		for _, o := range df.zOffsets {
+		for _, o := range zOffsetsOf() {
 			if _, err := a.ReadAt(buf, o); err != nil && firstErr == nil {
 				firstErr = err
 			}
@@ -746,6 +811,131 @@ func openAndRead(comp, dir string, keys [][]byte) (opened bool, err error) {
 }
 
 const kfF19 = "F19-store-open-trusts-last-clog-entry"
+const kfF21 = "F21-aht-dataat-trusts-commit-log-size"
+const kfF17 = "F17-limits-in-commit-log-header-trusted"
+const kfF22 = "F22-txlog-vlen-unchecked"
+
+// innermostMeta returns the client metadata (singleapp -> multiapp -> client) of a chunk file.
+func innermostMeta(b []byte) map[string][]byte {
+	if len(b) < 4 {
+		return nil
+	}
+	mLen := int(binary.BigEndian.Uint32(b))
+	if mLen > 1<<20 {
+		return nil
+	}
+	cur := make([]byte, mLen)
+	copy(cur, b[4:])
+	for depth := 0; depth < 2; depth++ {
+		ref := classifyAppMetadata(cur)
+		if ref.known != "" {
+			return nil
+		}
+		var next []byte
+		for i, k := range ref.keys {
+			if k == "WRAPPED_METADATA" {
+				next = ref.values[i]
+			}
+		}
+		if next == nil {
+			return nil
+		}
+		cur = next
+	}
+	ref := classifyAppMetadata(cur)
+	if ref.known != "" {
+		return nil
+	}
+	m := map[string][]byte{}
+	for i, k := range ref.keys {
+		m[k] = ref.values[i]
+	}
+	return m
+}
+
+var limitKeys = []string{"MAX_TX_ENTRIES", "MAX_KEY_LEN", "MAX_VALUE_LEN", "FILE_SIZE", "MAX_NODE_SIZE", "MAX_KEY_SIZE", "MAX_VALUE_SIZE"}
+
+// limitsAlteredKnown: a commit-log chunk of the store (or of its index) carries different limits than the pristine one.
+func limitsAlteredKnown(img *dirImage, override map[string][]byte) bool {
+	for n, b := range override {
+		if !strings.Contains(n, "commit/") {
+			continue
+		}
+		orig, ok := img.files[n]
+		if !ok {
+			continue
+		}
+		mo, mm := innermostMeta(orig), innermostMeta(b)
+		if mo == nil || mm == nil {
+			continue
+		}
+		for _, k := range limitKeys {
+			if vo, ok := mo[k]; ok && string(vo) != string(mm[k]) && len(mm[k]) >= 8 {
+				return true
+			}
+		}
+	}
+	return false
+}
+
+// vLenKnown: an in-place edit gave a tx-log record a value length above the store's MaxValueLen (256 in the fixture).
+func vLenKnown(img *dirImage, override map[string][]byte, txFields map[string][]field) bool {
+	for n, b := range override {
+		orig, ok := img.files[n]
+		if !ok || !strings.HasPrefix(n, "tx/") || len(orig) != len(b) {
+			continue
+		}
+		for _, f := range txFields[filepath.Base(n)] {
+			if strings.HasSuffix(f.name, ".vLen") && getBE(b[f.off:f.off+f.n]) != getBE(orig[f.off:f.off+f.n]) && getBE(b[f.off:f.off+f.n]) > 256 {
+				return true
+			}
+		}
+	}
+	return false
+}
+
+// ahtSizeKnown: some (complete) entry of the aht commit log announces a payload
+// larger than the whole data log (the fixture's commit log is a single chunk).
+func ahtSizeKnown(img *dirImage, override map[string][]byte, deleted map[string]bool, prefix string) bool {
+	get := func(n string) []byte {
+		if deleted[n] {
+			return nil
+		}
+		if b, ok := override[n]; ok {
+			return b
+		}
+		return img.files[n]
+	}
+	payload := func(b []byte) []byte {
+		if len(b) < 4 {
+			return nil
+		}
+		h := 4 + int(binary.BigEndian.Uint32(b))
+		if h < 4 || h > len(b) {
+			return nil
+		}
+		return b[h:]
+	}
+	c := payload(get(prefix + "commit/00000000.di"))
+	dataLen := 0
+	for _, n := range img.names {
+		if strings.HasPrefix(n, prefix+"data/") {
+			dataLen += len(payload(get(n)))
+		}
+	}
+	for n, b := range override {
+		if _, ok := img.files[n]; !ok && strings.HasPrefix(n, prefix+"data/") {
+			dataLen += len(payload(b))
+		}
+	}
+	for i := 0; i+12 <= len(c); i += 12 {
+		if sz := int(binary.BigEndian.Uint32(c[i+8:])); sz > dataLen && sz > 16<<10 {
+			return true
+		}
+	}
+	return false
+}
+
 const kfF2 = "F2-exporttx-partial-truncation-keeps-lock"
 
 // probeF2: a tx whose second value lies beyond the end of the value log (vOff of
@@ -804,7 +994,7 @@ func probeF2() (bool, string) {
 		buf = buf[:runtime.Stack(buf, true)]
 		waiting := false
 		for _, g := range strings.Split(string(buf), "\n\n") {
-			if strings.Contains(g, "probeF2.func1") && strings.Contains(g, "[sync.Mutex.Lock") {
+			if strings.Contains(g, "c16.probeF2.func") && strings.Contains(g, "[sync.Mutex.Lock") {
 				waiting = true
 			}
 		}
@@ -923,7 +1113,88 @@ func diskProbes() []vk.Probe {
 		}
 		return false, ""
 	}
-	return []vk.Probe{{ID: kfF2, Present: probeF2}, {ID: kfF20, Present: func() (bool, string) {
+	storeProbe := func(what, name string, edit func(b []byte, l *layout) bool, use func(st *store.ImmuStore)) (bool, string) {
+		dfOnce.Do(func() { df, dfErr = buildDiskFixture() })
+		if dfErr != nil {
+			return false, ""
+		}
+		img := df.comp["store"]
+		b := append([]byte(nil), img.files[name]...)
+		if !edit(b, layoutFile(name, img.files[name])) {
+			return false, ""
+		}
+		dir := vk.Dir()
+		defer removeAll(dir)
+		if err := img.writeTo(dir, map[string][]byte{name: b}, nil); err != nil {
+			return false, ""
+		}
+		r := runStateful(func() {
+			st, err := store.Open(dir, diskStoreOpts())
+			if err != nil {
+				return
+			}
+			defer st.Close()
+			if use != nil {
+				use(st)
+			}
+		})
+		if m := r.verdict(what, 4096); m != "" {
+			return true, m
+		}
+		return false, ""
+	}
+	setField := func(suffix string, v uint64) func(b []byte, l *layout) bool {
+		return func(b []byte, l *layout) bool {
+			for _, f := range l.f {
+				if strings.HasSuffix(f.name, suffix) {
+					putBE(b[f.off:f.off+f.n], v)
+					return true
+				}
+			}
+			return false
+		}
+	}
+	return []vk.Probe{{ID: kfF17, Present: func() (bool, string) {
+		return storeProbe("store.Open with MAX_KEY_LEN := 1<<24 in the header of commit/00000000.txi (MAX_TX_ENTRIES stays 16)", "commit/00000000.txi",
+			setField(">MAX_KEY_LEN.val", 1<<24), nil)
+	}}, {ID: kfF22, Present: func() (bool, string) {
+		return storeProbe("store.Open + ReadTx(1) (integrity checks on) + ReadValue with the vLen of tx 1's entry set to 0x50000000 in the tx log", "tx/00000000.tx",
+			setField("tx1.e0.vLen", 0x50000000), func(st *store.ImmuStore) {
+				holder := store.NewTx(64, 256)
+				if err := st.ReadTx(1, false, holder); err != nil {
+					return
+				}
+				st.ReadValue(holder.Entries()[0])
+			})
+	}}, {ID: kfF21, Present: func() (bool, string) {
+		dfOnce.Do(func() { df, dfErr = buildDiskFixture() })
+		if dfErr != nil {
+			return false, ""
+		}
+		img := df.comp["aht"]
+		name := "commit/00000000.di"
+		b := append([]byte(nil), img.files[name]...)
+		p0 := 4 + int(binary.BigEndian.Uint32(b))
+		// size of the first payload := 0x50000000
+		binary.BigEndian.PutUint32(b[p0+8:], 0x50000000)
+		dir := vk.Dir()
+		defer removeAll(dir)
+		if err := img.writeTo(dir, map[string][]byte{name: b}, nil); err != nil {
+			return false, ""
+		}
+		r := runStateful(func() {
+			tr, err := ahtree.Open(dir, ahtOpts())
+			if err != nil {
+				return
+			}
+			defer tr.Close()
+			tr.DataAt(1)
+		})
+		if m := r.verdict("ahtree.Open + DataAt(1) with the payload size of commit-log entry 1 set to 0x50000000", 4096); m != "" {
+			return true, m
+		}
+		return false, ""
+	}}, {ID: kfF2, Present: probeF2}, {ID: kfF20, Present: func() (bool, string) {
 		dfOnce.Do(func() { df, dfErr = buildDiskFixture() })
 		if dfErr != nil {
 			return false, ""
@@ -1042,7 +1313,7 @@ func zChunkKnown(mut []byte, offs []int64) bool {
 // images, then open + full read.
 func TestOpenCorruptedDirectories(t *testing.T) {
 	fx := diskFix(t)
-	vk.Check(t, 6000, 200000, func(rt *rapid.T, c *vk.Case) {
+	vk.Check(t, 6000, 120000, func(rt *rapid.T, c *vk.Case) {
 		comp := rapid.SampledFrom(diskComponents).Draw(rt, "component")
 		img := fx.comp[comp]
 		override := map[string][]byte{}
@@ -1105,6 +1376,18 @@ func TestOpenCorruptedDirectories(t *testing.T) {
 				known = kfF19
 			}
 		}
+		if known == "" && (comp == "store" || comp == "tbtree") && limitsAlteredKnown(img, override) {
+			known = kfF17
+		}
+		if known == "" && comp == "store" && vLenKnown(img, override, fx.txFields) {
+			known = kfF22
+		}
+		if known == "" && comp == "aht" && ahtSizeKnown(img, override, deleted, "") {
+			known = kfF21
+		}
+		if known == "" && comp == "store" && ahtSizeKnown(img, override, deleted, "aht/") {
+			known = kfF21
+		}
 		if known == "" && multiappFileSizeKnown(img, override, deleted, strings.HasPrefix(comp, "singleapp")) {
 			known = kfF20
 		}
@@ -1120,9 +1403,25 @@ func TestOpenCorruptedDirectories(t *testing.T) {
 		}
 		var opened bool
 		var rerr error
-		r := runStateful(func() { opened, rerr = openAndRead(comp, dir, fx.keys) })
-		if m := r.verdict("open + full read of a corrupted "+comp+" directory", diskReadCap); m != "" {
-			c.Failf(rt, map[string]any{"component": comp, "corruption": desc}, "%s\ncorruption: %s", m, desc)
+		if comp == "store" || comp == "tbtree" {
+			// the store's indexers and tbtree's insert helpers decode nodes in background goroutines: run in a child process
+			cr := runChild("openread", map[string]string{"C16_COMP": comp, "C16_DIR": dir})
+			c.Label("ran-in-child-process")
+			if cr.died {
+				c.Failf(rt, map[string]any{"component": comp, "corruption": desc}, "open + full read of a corrupted %s directory KILLED THE PROCESS: %s\ncorruption: %s", comp, cr.crash, desc)
+			}
+			if cr.verdict != "" {
+				c.Failf(rt, map[string]any{"component": comp, "corruption": desc}, "%s\ncorruption: %s", cr.verdict, desc)
+			}
+			opened = cr.opened
+			if cr.err != "" {
+				rerr = errors.New(cr.err)
+			}
+		} else {
+			r := runStateful(func() { opened, rerr = openAndRead(comp, dir, fx.keys) })
+			if m := r.verdict("open + full read of a corrupted "+comp+" directory", diskReadCap); m != "" {
+				c.Failf(rt, map[string]any{"component": comp, "corruption": desc}, "%s\ncorruption: %s", m, desc)
+			}
 		}
 		switch {
 		case !opened:
